@@ -21,6 +21,46 @@ CHECKS = {
         note=COMMON_NOTE + " Domain restricted to ASCII/consistent maps by the TLA+ predicate AsciiConsistent.",
         technique="TLA+ position oracle + TLC trace validation",
     ),
+    "C03": dict(
+        text="For every tree, the SourceMap returned by map() is decoded by the specification's VLQ decoder and resolved at every byte "
+             "position (per line for columns=false); TLC compares it with the attribution of the covering chunk of the normal-mode stream "
+             "recorded from the same object, both read by value through their own tables (Attr.tla).",
+        note=COMMON_NOTE + " map() is compared with the most recent stream of the same object; one known finding (K1: ReplaceSource over CachedSource).",
+        technique="TLA+ attribution oracle (decode + resolve) + TLC trace validation",
+    ),
+    "C04": dict(
+        text="Byte provenance Prov(tree) (which OriginalSource byte every output byte is a copy of; defined in Sem.tla from the reference splice, "
+             "independent of chunking) is compared by TLC with the decoded map: segment targets, coverage of surviving originals, raw text "
+             "unmapped, statement starts exact (tokenizer rule specified in TLA+), sources/sourcesContent table, per-line attribution.",
+        note=COMMON_NOTE + " The line break of an otherwise empty original line is exempt from coverage (OriginalSource emits it unmapped by design).",
+        technique="TLA+ provenance oracle + TLC trace validation",
+    ),
+    "C06": dict(
+        text="ConcatSource: each child's own map() and the composite's map() are resolved at every position and compared by value (content "
+             "included); columns=false via the first mapped child piece per line. ReplaceSource: the observed inner stream defines the inner "
+             "segments; SpliceProv aligns every output byte with an inner byte or a replacement, and TLC checks file/line/name preservation, "
+             "the content-conditioned column advance and replacement names.",
+        note=COMMON_NOTE + " Where the recorded content does not equal the skipped text the column may lie anywhere between the segment column and the advanced column (the statement only says when it IS advanced).",
+        technique="TLA+ attribution oracle + splice provenance + TLC trace validation",
+    ),
+    "C08": dict(
+        text="Every (text, map) pair of the scope is served by SourceMapSource and by a user-defined source over stream_chunks_default, in all "
+             "four (columns, final-source) modes and through map() of an enclosing ConcatSource; TLC compares per-position / per-line attribution "
+             "and the declared tables with the given map resolved by SMap.tla.",
+        note=COMMON_NOTE + " final-source options are obtained with a spy child (no hook).",
+        technique="TLA+ map-resolution oracle + TLC trace validation, exhaustive small scope",
+    ),
+    "C09": dict(
+        text="Compose.tla states declaratively what the combination of an outer and an inner map must attribute every position to; TLC "
+             "evaluates it on map() recorded from SourceMapSource values with inner maps (original source given / from sourcesContent, removal, both column settings).",
+        note=COMMON_NOTE + " Names: an inner name may be dropped where the column was advanced; in the no-inner-mapping case the name is not constrained.",
+        technique="TLA+ declarative map composition + TLC trace validation",
+    ),
+    "C13": dict(
+        text="Pairs (flat, regrouped/wrapped) are executed; TLC compares text and per-position (per-line) attribution of the two recorded map() answers.",
+        note=COMMON_NOTE + " One known finding (K2: empty insertion inside a chunk refines the original column).",
+        technique="TLA+ attribution oracle on law instances + TLC trace validation",
+    ),
     "C05": dict(
         text="ReplaceSource histories (mutators interleaved with every observer) are replayed; TLC evolves the replacement list as the object "
              "machine's state and compares each observer's answer with Splice (stable order by start,end,enforce,call order).",
